@@ -19,7 +19,7 @@ from fractions import Fraction
 import numpy as np
 
 PROP = 'C13'
-TARGETS = ['T13s', 'T13se', 'T13k', 'T13v', 'T13sa']
+TARGETS = ['T13s', 'T13se', 'T13k', 'T13v', 'T13sa', 'T14', 'T14v']
 LEAN_MODULES = ['HdVerif.Props.C13']
 MODEL_MODULES = ['HdVerif.Model.SRItems', 'HdVerif.Model.SRItemsArgs']
 NAMESPACE = 'HdVerif.C13'
@@ -555,9 +555,20 @@ def decorate(r, d, top=True, plant=None):
         sp['rel'] = 'other-enum-member'
         d['rel_member_of'] = r.choice(['ValueTypeValues', 'GraphicTypeValues'])
         d['bad'] = 'enum'
+    if d['children']:
+        import random as _random
+        ro = _random.Random('children|' + json.dumps(d['name'], sort_keys=True, default=str) + '|' + str(len(d['children'])) + '|' + vt)
+        sp['children'] = ro.choice(GIVEN_AS)
+        sp['handle_op'] = ro.choice(HANDLE_OPS)
     for c in d['children']:
         decorate(r, c, False)
 
+
+# how an item is given its children (always through the attribute: no constructor of value_types.py takes content), and
+# what the caller does afterwards with the container it still holds
+GIVEN_AS = ['list', 'list', 'tuple', 'pydicom-sequence', 'content-sequence', 'content-sequence', 'other-item', 'other-item',
+            'find-result']
+HANDLE_OPS = ['append', 'append', 'delete-first', 'replace-first', 'reverse', 'clear', 'extend', 'insert-front']
 
 PLANT2_FOR = {'IMAGE': ['empty', 'fractional'], 'WAVEFORM': ['empty', 'nonpair', 'nonpair', 'fractional'], 'TCOORD': ['empty', 'fractional'],
               'NUM': ['numtype'],
@@ -702,9 +713,64 @@ def _spell_dt(v, how):
     return _mk_dt(v)
 
 
-def build(d):
+def _give_children(it, kids, how):
+    """Assign `kids` to `it.ContentSequence` in the drawn way; returns the container the CALLER still holds afterwards
+    (None when it holds nothing it could change)."""
+    import highdicom.sr as sr
+    from pydicom.sequence import Sequence as PydicomSequence
+    if how == 'tuple':
+        it.ContentSequence = tuple(kids)
+        return None
+    if how == 'pydicom-sequence':
+        h = PydicomSequence(kids)
+    elif how == 'content-sequence':
+        h = sr.ContentSequence(kids)
+    elif how == 'other-item':
+        donor = sr.ContainerContentItem(sr.CodedConcept('111', '99HDV', 'donor'), relationship_type='CONTAINS')
+        donor.ContentSequence = kids
+        h = donor.ContentSequence              # another item's content
+    elif how == 'find-result':
+        # a sequence handed out by a query of another sequence (all children plus nothing else: get_nodes of items that all
+        # have content is not general; a same-flag collection through extend is what find / get_nodes build)
+        src = sr.ContentSequence(kids)
+        h = sr.ContentSequence()
+        h.extend(src)
+    else:
+        h = list(kids)
+    it.ContentSequence = h
+    return h
+
+
+def _intruder(k=0):
+    import highdicom.sr as sr
+    return sr.TextContentItem(sr.CodedConcept('112', '99HDV', 'not given to the item'), f'intruder {k}', relationship_type='CONTAINS')
+
+
+def _mutate_handle(h, op):
+    """What a caller may do to a container it owns."""
+    if op == 'append':
+        h.append(_intruder())
+    elif op == 'extend':
+        h.extend([_intruder(1), _intruder(2)])
+    elif op == 'insert-front':
+        h.insert(0, _intruder())
+    elif op == 'delete-first':
+        del h[0]
+    elif op == 'replace-first':
+        h[0] = _intruder()
+    elif op == 'reverse':
+        if len(h) < 2:
+            h.append(_intruder())
+        else:
+            h.reverse()
+    elif op == 'clear':
+        while len(h):
+            del h[-1]
+
+
+def build(d, handles=None):
     """Construct the real content item for a specification (children included, through the attribute setter), every
-    argument in the spelling drawn for it (d['sp'])."""
+    argument in the spelling drawn for it (d['sp']).  `handles` collects (specification, item, container the caller kept)."""
     import highdicom.sr as sr
     from pydicom.valuerep import DA, TM, PersonName
     a = d['args']
@@ -788,7 +854,9 @@ def build(d):
     else:
         raise RuntimeError(vt)
     if d['children']:
-        it.ContentSequence = [build(c) for c in d['children']]
+        h = _give_children(it, [build(c, handles) for c in d['children']], sp.get('children', 'list'))
+        if handles is not None and h is not None:
+            handles.append((d, it, h))
     return it
 
 
@@ -1362,14 +1430,66 @@ def _reread_after_edit(ctx, where, it, d, want, label):
                  site='accessor-reread')
 
 
+def _ownership(ctx, where, it, d, want, handles):
+    vt = d['vt']
+    for cd, owner, h in handles:
+        how, op = (cd.get('sp') or {}).get('children', 'list'), (cd.get('sp') or {}).get('handle_op', 'append')
+        ctx.hist('children_given_as', how)
+        ctx.hist('caller_handle_mutation', op)
+        before = list(owner.ContentSequence)
+        try:
+            _mutate_handle(h, op)
+        except Exception:  # noqa: BLE001     (the caller's own container refusing the caller's edit is not the item's business)
+            pass
+        after = list(owner.ContentSequence)
+        if len(before) != len(after) or any(x is not y for x, y in zip(before, after)):
+            ctx.fail(where, {'what': f'an item given its children as {how} changed when the caller did "{op}" to the container it '
+                                     'had assigned', 'children_before': len(before), 'children_after': len(after)},
+                     site='ownership/' + how)
+            return
+    if not handles:
+        return
+    try:
+        x = _diff(observe(it), want)
+        if x:
+            ctx.fail(where, {'what': 'after the caller changed the containers it had assigned, the accessors no longer report the '
+                                     'nested content the item was given', 'first difference': x}, site='ownership/accessors')
+            return
+        back = _parse(through_bytes(it, False), vt, d['rel'], 'sequence')
+        x = _diff(observe(back), expected(d, True))
+        if x:
+            ctx.fail(where, {'what': 'after the caller changed the containers it had assigned, the item is written with nested '
+                                     'content it was not given', 'first difference': x}, site='ownership/bytes')
+    except Exception as e:  # noqa: BLE001
+        ctx.fail(where, f'ownership check raised {type(e).__name__}: {e}'[:300], site='ownership/accessors')
+    # the other direction, on a second build: an edit THROUGH THE ITEM must not reach the caller's container
+    handles2 = []
+    try:
+        build(d, handles2)
+    except Exception:  # noqa: BLE001
+        return
+    for cd, owner, h in handles2:
+        n = len(h)
+        try:
+            owner.ContentSequence.append(_intruder(9))
+        except Exception:  # noqa: BLE001
+            continue
+        if len(h) != n:
+            ctx.fail(where, {'what': f"appending to an item's content changed the container the caller had assigned "
+                                     f"({(cd.get('sp') or {}).get('children', 'list')})", 'length_before': n, 'length_after': len(h)},
+                     site='ownership/reverse-' + (cd.get('sp') or {}).get('children', 'list'))
+            return
+
+
 def check_item(ctx, case, reqs=None, pend=None):
     d = case['item']
     bad = forbidden(d)
     vt = d['vt']
     a = d['args']
     gt = a.get('gt')
+    handles = []
     try:
-        it = build(d)
+        it = build(d, handles)
         err = None
     except Exception as e:  # noqa: BLE001
         it, err = None, _kind(e)
@@ -1406,6 +1526,10 @@ def check_item(ctx, case, reqs=None, pend=None):
         # ---- oracle 2b: several calls on ONE object -- what a caller does to a value it was handed must not change
         #      what the item reports next time, nor what is written
         _reread_after_edit(ctx, where, it, d, want, 'built')
+        # ---- oracle 2c: the item OWNS its nested content -- the caller changes the container it assigned (it still holds
+        #      it: a list, a pydicom Sequence, a ContentSequence, another item's content) and the item must go on reporting,
+        #      and be written with, exactly the children it was given
+        _ownership(ctx, where, it, d, want, handles)
         # ---- oracle 3: parse back (in memory / through bytes) = same class, equal name, relationship, value, children
         for how, mk in (('memory/class', lambda: plain_copy(it)), ('memory/sequence', lambda: plain_copy(it)),
                         ('bytes-explicit/sequence', lambda: through_bytes(it, False)),
@@ -1559,7 +1683,7 @@ def check_item(ctx, case, reqs=None, pend=None):
              if vt in ('TCOORD', 'NUM') else '-',
              **{'spelling_' + k: f'{vt}/{v}' for k, v in (d.get('sp') or {}).items() if k in
                 ('rel', 'value', 'frames', 'segments', 'channels', 'values', 'datetime', 'gt', 'origin', 'range', 'continuous',
-                 'template', 'also')},
+                 'template', 'also', 'children')},
              spelling_uid=(d.get('sp') or {}).get('uid', '-') if vt in ('UIDREF', 'COMPOSITE', 'IMAGE', 'WAVEFORM', 'SCOORD3D') else '-',
              spelling_optional=('omitted' if (d.get('sp') or {}).get('omit_none') else 'None') if any(
                  x is None for x in [d['rel']] + [a.get(k) for k in ('qualifier', 'template', 'frames', 'segments', 'channels',
